@@ -18,7 +18,7 @@ from ..alg import AlgError, Context, Rat, _pdiv_exact
 from ..extract import Extractor, Closure, Opaque, PathRaises, ReturnValue, _dotted
 from ..model import Program, walk_own
 from ..report import AnalysisError
-from ..model import key_in
+from ..model import key_in, canon as K
 
 EQ = "hypnotoad/core/equilibrium.py"
 POLY = "hypnotoad/utils/polygons.py"
@@ -101,6 +101,17 @@ def r1_r2_r3(prog, rep):
     f = find_fi(prog)
     rep.analysed_add("functions", [f.site()])
     mod = f.module
+    # edge end-point arrays: column 0/1 of R1array, Z1array are the R (column 0) / Z (column 1)
+    # coordinate of the first / second end point of every edge of the polyline
+    want_edges = {"R1array[:,0]": "l1array[:-1,0]", "R1array[:,1]": "l1array[1:,0]", "Z1array[:,0]": "l1array[:-1,1]", "Z1array[:,1]": "l1array[1:,1]"}
+    got_edges = {}
+    for s in f.node.body:
+        if isinstance(s, ast.Assign) and isinstance(s.targets[0], ast.Subscript) and mod.code(s.targets[0]) in want_edges:
+            got_edges[mod.code(s.targets[0])] = mod.code(s.value)
+    rep.ob("R1", "edge arrays hold (R, Z) of the first and second end point of each polyline edge", got_edges == want_edges, f.site(), str(got_edges), key="edges/endpoints")
+    shapes = {mod.code(s.targets[0]): mod.code(s.value) for s in f.node.body if isinstance(s, ast.Assign) and isinstance(s.targets[0], ast.Name) and s.targets[0].id in ("R1array", "Z1array")}
+    ok = all(shapes.get(k) == K("numpy.zeros([l1array.shape[0] - 1, 2])") for k in ("R1array", "Z1array"))
+    rep.ob("R1", "one row per edge (number of points minus one), two columns", ok, f.site(), str(shapes), key="edges/shape")
     # R3: parameters rebound to copies before anything else touches them
     params = [a.arg for a in f.node.args.args]
     copied = {}
